@@ -447,11 +447,35 @@ impl G {
             ids.push(json!([cps(&name), {"t":"map","es":es}]));
             names.push(name);
         }
+        // a RANGE on one field written in one block / one and-term (`n: '>=1'` with `int(n): '<3'`,
+        // `int(n) > 0 and int(n) <= 2`): one row of the matrix then has two cells for one column
+        let range_field = *self.r.pick(&["n", "h"]);
+        if self.r.chance(1, 3) {
+            let lo = self.r.below(3);
+            let hi = lo + 1 + self.r.below(2);
+            let other = *self.r.pick(&["f", "g"]);
+            let blk = |a: &str, b: &str, ov: J| json!({"t":"map","es":[
+                {"m":"none","c":0,"f":cps(range_field),"v":{"t":"cmp","op":a,"n":int_node(&format!("{}", lo))}},
+                {"m":"int","c":0,"f":cps(range_field),"v":{"t":"cmp","op":b,"n":int_node(&format!("{}", hi))}},
+                {"m":"none","c":0,"f":cps(other),"v":ov}]});
+            let ms = vec![blk("ge", "lt", self.pattern(false)),
+                          json!({"t":"map","es":[{"m":"none","c":0,"f":cps(range_field),"v":{"t":"num","n":int_node(&format!("{}", hi + 1))}},
+                                                 {"m":"none","c":0,"f":cps(other),"v":self.pattern(false)}]})];
+            let name = IDENTS[nid].to_string();
+            ids.push(json!([cps(&name), {"t":"seq","ms":ms}]));
+            names.push(name);
+        }
         let mut terms = vec![];
         let nt = 2 + self.r.below(3);
         for _ in 0..nt {
             let na = 1 + self.r.below(3);
             let mut atoms = vec![];
+            if na >= 2 && self.r.chance(1, 4) {
+                let lo = self.r.below(3);
+                let l = json!({"t":"cast","k":"int","f":cps(range_field)});
+                atoms.push(json!({"t":"cmp","op":"gt","l":l.clone(),"r":{"t":"const","n":int_node(&format!("{}", lo))}}));
+                atoms.push(json!({"t":"cmp","op":"le","l":l,"r":{"t":"const","n":int_node(&format!("{}", lo + 1 + self.r.below(2)))}}));
+            }
             for _ in 0..na {
                 let a = if self.r.chance(1, 4) {
                     let kind = *self.r.pick(&["int", "flt", "str"]);
